@@ -1351,3 +1351,36 @@ func expandHelperOk(fd *ast.FuncDecl, id *ast.Ident) ([]pcond, bool) {
 	}
 	return conds, true
 }
+
+// defsThroughAny: the defining expressions of obj in cf or, when obj is a parameter of cf, the arguments passed for
+// it at every call site of cf in the module (each read in its caller).
+func defsThroughAny(w *World, cf *FuncInfo, obj types.Object) ([]ast.Expr, []*FuncInfo) {
+	var out []ast.Expr
+	var where []*FuncInfo
+	for _, d := range defsIn(cf.Pkg.TypesInfo, cf.Decl, obj) {
+		out = append(out, d)
+		where = append(where, cf)
+	}
+	if len(out) > 0 {
+		return out, where
+	}
+	pi := paramIndex(cf, obj)
+	if pi < 0 {
+		return nil, nil
+	}
+	for _, caller := range sortedFuncs(w) {
+		if caller.Decl.Body == nil {
+			continue
+		}
+		info := caller.Pkg.TypesInfo
+		ast.Inspect(caller.Decl.Body, func(x ast.Node) bool {
+			call, ok := x.(*ast.CallExpr)
+			if ok && calleeOf(info, call) == cf.Obj && pi < len(call.Args) {
+				out = append(out, call.Args[pi])
+				where = append(where, caller)
+			}
+			return true
+		})
+	}
+	return out, where
+}
